@@ -305,6 +305,45 @@ func runC03(c *h.Ctx) {
 		{name: "quicwire.ConsumeVarintBytes", seeds: [][]byte{quicwire.AppendVarintBytes(nil, rnd(c, 70))}, f: func(in []byte) bool { _, n := quicwire.ConsumeVarintBytes(in); return n >= 0 }},
 		{name: "quicwire.ConsumeUint8Bytes", seeds: [][]byte{quicwire.AppendUint8Bytes(nil, rnd(c, 70))}, f: func(in []byte) bool { _, n := quicwire.ConsumeUint8Bytes(in); return n >= 0 }},
 	}
+	// large well-formed lists through the decoders alone: memory must stay proportional to the message (a decoder that
+	// copies "the rest of the input" per element is quadratic and only shows on thousands of elements)
+	{
+		var many []tokens.TokenRequestWithDetails
+		for i := 0; i < 2000; i++ {
+			if i%2 == 0 {
+				many = append(many, st1.Request())
+			} else {
+				many = append(many, st2.Request())
+			}
+		}
+		bigReq, _ := batched.BatchedClient{}.CreateTokenRequest(many)
+		bigReqEnc := bigReq.Marshal()
+		var respBody []byte
+		for i := 0; i < 3000; i++ {
+			switch i % 3 {
+			case 0:
+				respBody = append(respBody, 0)
+			case 1:
+				respBody = append(respBody, cat([]byte{1}, u16b(1), resp1)...)
+			default:
+				respBody = append(respBody, cat([]byte{1}, u16b(2), resp2)...)
+			}
+		}
+		bigResps := cat(quicwire.AppendVarint(nil, uint64(len(respBody))), respBody)
+		elems := rnd(c, 32*3000)
+		big5 := cat(u16b(5), []byte{9}, quicwire.AppendVarint(nil, uint64(len(elems))), elems)
+		origins := make([]string, 3000)
+		for i := range origins {
+			origins[i] = fmt.Sprintf("o%04d.example", i)
+		}
+		bigChal := tokens.TokenChallenge{TokenType: 2, IssuerName: "issuer.example", RedemptionNonce: rnd(c, 32), OriginInfo: origins}.Marshal()
+		targets = append(targets,
+			target{name: "batched.Request.Unmarshal (2000 elements)", seeds: [][]byte{bigReqEnc}, f: func(in []byte) bool { return new(batched.BatchedTokenRequest).Unmarshal(in) }},
+			target{name: "type5.Request.Unmarshal (3000 elements)", seeds: [][]byte{big5}, f: func(in []byte) bool { return new(type5.BatchedPrivateTokenRequest).Unmarshal(in) }},
+			target{name: "tokens.UnmarshalTokenChallenge (3000 origins)", seeds: [][]byte{bigChal}, f: func(in []byte) bool { _, e := tokens.UnmarshalTokenChallenge(in); return e == nil }},
+		)
+		targets = append(targets, target{name: "batched.UnmarshalBatchedTokenResponses (3000 entries)", seeds: [][]byte{bigResps}, f: func(in []byte) bool { _, e := batched.UnmarshalBatchedTokenResponses(in); return e == nil }})
+	}
 	// structured malformed inputs: consistent re-framing with every small field length
 	extra := map[string][][]byte{}
 	r3 := st3.Request()
